@@ -904,6 +904,7 @@ pub fn record(suite: &str, n: usize, seed: u64, arg: &str, out: &mut dyn Write) 
         "circuits" => circuits(out, &mut r, n, false),
         "groth16" => circuits(out, &mut r, n, true),
         "bls" => crate::bls::record(out, &mut r, n),
+        "blspts" => crate::bls::points(out, arg),
         _ => return false,
     }
     true
